@@ -97,6 +97,9 @@ func (r *resolver) module(y *Module) error {
 				if err != nil {
 					return fmt.Errorf("%s - %s", i.moduleName, err)
 				}
+				// a source may hand out a module under another name, remember what
+				// was asked for or this recurses for as long as the source does that
+				r.loadedModules[i.moduleName] = i.module
 				// recurse
 				if err = r.module(i.module); err != nil {
 					return err
